@@ -187,6 +187,41 @@ def core_cases(max_size, const_max_size, contexts=CONTEXT_NAMES):
 
 
 # ---------------------------------------------------------------------------------------------------
+# (1b) `is None` / `is not None` tests as operands of and/or groups (POP_JUMP_IF_NONE / POP_JUMP_IF_NOT_NONE paths)
+# ---------------------------------------------------------------------------------------------------
+NONE_OPERANDS = ('N', 'isnone', 'notnone')
+NONE_FRAMES = ('alone', 'group_op_d', 'd_op_group', 'd_op_group_op_e', 'not_group', 'not_group_op_d')
+NONE_CONTEXTS = ('gen_cond', 'lam', 'gen_cond_2of2', 'gen_elt')
+
+
+def none_group_trees():
+    """every and/or group of 2..4 operands, each operand a name / `name is None` / `name is not None` (at least one
+    None-test, at every position), alone, negated, and as first / last / middle operand of the other operator"""
+    out = []
+    for op in ('and', 'or'):
+        other = 'or' if op == 'and' else 'and'
+        for n in (2, 3, 4):
+            for kinds in itertools.product(NONE_OPERANDS, repeat=n):
+                if all(k == 'N' for k in kinds):
+                    continue
+                group = (op,) + tuple(('N',) if k == 'N' else (k, ('N',)) for k in kinds)
+                leaf = ('N',)
+                out.append(group)
+                out.append((other, group, leaf))
+                out.append((other, leaf, group))
+                out.append((other, leaf, group, leaf))
+                out.append(('not', group))
+                out.append((other, ('not', group), leaf))
+    return out
+
+
+def none_group_cases():
+    for tree in none_group_trees():
+        for ctxname in NONE_CONTEXTS:
+            yield (ctxname, tree)
+
+
+# ---------------------------------------------------------------------------------------------------
 # (2) value-construct templates x operand fillers (complete grid)
 # ---------------------------------------------------------------------------------------------------
 TEMPLATES = (
@@ -366,7 +401,16 @@ class _Builder(object):
         if kind == 'bool':
             op = self.pick(('and', 'or'))
             n = self.integer(2, min(4, budget))
-            return '(' + (' %s ' % op).join(sub(b) for b in self.split(budget, n)) + ')'
+            parts = []
+            for b in self.split(budget, n):
+                operand = sub(b)
+                how = self.integer(0, 5)
+                if how == 4:
+                    operand = '(%s is None)' % operand
+                elif how == 5:
+                    operand = '(%s is not None)' % operand
+                parts.append(operand)
+            return '(' + (' %s ' % op).join(parts) + ')'
         if kind == 'not':
             return '(not %s)' % sub(budget - 1)
         if kind == 'ifexp':
